@@ -36,6 +36,10 @@ def configs(tier, seed):
     for n, dw, al in [(17, 8, 0), (20, 8, 1), (24, 8, 0), (33, 16, 0)] + ([] if tier == "quick" else [(33, 8, 0), (41, 8, 1), (50, 8, 0)]):
         cfgs.append({"n": n, "dw": dw, "align": al, "modes": [rng.choice(["level", "rise", "fall"]) for _ in range(n)]})
     cfgs.append({"n": 3, "dw": 8, "align": 3, "modes": ["rise", "fall", "level"]})
+    # padded register sizes that are not a power of two (5 or 6 words padded to 6; 9..11 padded to 10 / 12): the last data words
+    # of `enable` share their shadow chunk with alignment padding of `pending`
+    for n, dw, al in [(40, 8, 1), (33, 8, 1)] + ([] if tier == "quick" else [(70, 8, 1), (66, 8, 2), (81, 8, 1), (40, 16, 1), (72, 8, 2)]):
+        cfgs.append({"n": n, "dw": dw, "align": al, "modes": [("level", "rise", "fall")[i % 3] for i in range(n)]})
     return cfgs
 
 
